@@ -1,4 +1,7 @@
 import HdModel.Lemmas.Eyeballs3
+import HdModel.Model.TcpConnect
+import HdModel.Props.C16
+import HdModel.Props.C10
 /-! # C11 — happy-eyeballs attempts are paced, ordered, bounded and meet the deadline
 
 Theorems about `Hd.Eyeballs.run` (mirror of `EyeballSet::finish`) for **every** list of scripted
@@ -142,3 +145,43 @@ theorem C11_initial_bound (c : Cfg) (atts : List Attempt) :
 example : (run ⟨some 10, some 100, some 1⟩ [⟨some 30, .err⟩, ⟨some 5, .ok⟩]).1 = .ok 1 15 := by decide
 
 end Hd.Eyeballs
+
+/-! ## The TCP connect as a whole (`TcpTransport::connect_to_addrs`, stream `tcpc`) -/
+namespace Hd.TcpConnect
+open Hd.Eyeballs
+
+/-- every candidate address gets its turn: the attempt order is a permutation of the candidates -/
+theorem order_perm (T conc : Option Nat) (v4 v6 : Bool) (cands : List Dns.Addr) (attOf : Dns.Addr → Attempt) :
+    (connect T conc v4 v6 cands attOf).order.Perm cands := by
+  unfold connect Dns.connectingOrder
+  simp only []
+  split
+  · exact Dns.C16_perm _ _
+  · exact List.Perm.refl _
+
+/-- **C11 (deadline) for the composed connect**: with `happy_eyeballs_timeout = d` the whole operation –
+    whatever the candidates do, however many there are, whatever order they are tried in – is over by `d`. -/
+theorem C11_tcp_deadline (d : Nat) (conc : Option Nat) (v4 v6 : Bool) (cands : List Dns.Addr) (attOf : Dns.Addr → Attempt) (t : Nat)
+    (ht : resTime (connect (some d) conc v4 v6 cands attOf).res = some t) : t ≤ d := by
+  unfold connect at ht
+  exact C11_deadline _ _ t d ht (by unfold tcpCfg; simp)
+
+/-- the stagger delay the set is given is the deadline divided by the number of candidates -/
+theorem tcp_stagger (d : Nat) (conc : Option Nat) (n : Nat) (hn : n ≠ 0) :
+    (tcpCfg (some d) conc n).delay = some (d / n) ∧ (tcpCfg (some d) conc n).timeout = some d ∧ (tcpCfg (some d) conc n).conc = conc := by
+  unfold tcpCfg; simp [hn]
+
+/-- **C10 (first success) for the composed connect**: a connection that is returned is that of a candidate
+    that was started, and no started candidate accepted earlier. -/
+theorem C10_tcp_first_success (T conc : Option Nat) (v4 v6 : Bool) (cands : List Dns.Addr) (attOf : Dns.Addr → Attempt) (j t : Nat)
+    (h : (connect T conc v4 v6 cands attOf).res = .ok j t) :
+    (∃ st ∈ (connect T conc v4 v6 cands attOf).st.starts, st.1 = j ∧
+        succeedsAt ((connect T conc v4 v6 cands attOf).order.map attOf) st = some t) ∧
+    (∀ st ∈ (connect T conc v4 v6 cands attOf).st.starts, ∀ u,
+        succeedsAt ((connect T conc v4 v6 cands attOf).order.map attOf) st = some u → t ≤ u) := by
+  unfold connect at h ⊢
+  simp only [] at h ⊢
+  obtain ⟨a, b, _⟩ := C10_first_success _ _ j t h
+  exact ⟨a, b⟩
+
+end Hd.TcpConnect
